@@ -115,6 +115,15 @@ Definition broker_ok (b : broker_fact) : bool :=
       else String.eqb (bf_fn b) "ccb.brokerReg.serve"
   end.
 
+(* how SessionCache.Store guards the purge of the command mappings that point at the
+   stored id: present at all / guarded by the PRESENCE of an old entry / guarded by the
+   identity test against the stored entry *)
+Record store_purge_fact := mk_sp { sp_present : bool; sp_presence_guard : bool; sp_identity_guard : bool }.
+(* the modelled Store (cache_step false): purge whenever a DIFFERENT entry takes the id,
+   whether or not the id was present *)
+Definition store_purge_ok (f : store_purge_fact) : bool :=
+  sp_present f && negb (sp_presence_guard f) && sp_identity_guard f.
+
 (* a function that installs a cipher on a Stream, and whether it freezes the send / receive handshake digest *)
 Record key_installer := mk_ki { ki_fn : string; ki_send : bool; ki_recv : bool }.
 Definition installer_ok (k : key_installer) : bool := ki_send k && ki_recv k.
